@@ -1,6 +1,6 @@
 """C17 - R-MAX stays optimistic about what it has not tried often enough."""
 from sim.core import Violation, Inconclusive, RandomProxy, patched_random, close
-from sim.models import gen_mdp_spec, MDPView, make_mdp
+from sim.models import gen_mdp_spec, MDPView, make_mdp, sibling_mdp_spec
 from sim.refsolve import game_W
 from sim.ctx import RunCtx, make_scheduler, gen_sched
 from sim import shrink as shr
@@ -25,8 +25,10 @@ def preload():
 
 
 def gen_case(rng, tier, idx):
-    spec = gen_mdp_spec(rng, proper=True, uniform_actions=True, discounts=(0.5, 0.8, 0.9, 0.95))
-    cfg = dict(m=rng.randint(1, 5), tol=rng.choice((1e-3, 1e-5)), episodes=rng.randint(1, 6), seed=rng.choice((0, 1, 5, 99)))
+    # mostly moderate discounts; a few per cent close to 1, where planning on the empirical model needs thousands of sweeps
+    spec = gen_mdp_spec(rng, proper=True, uniform_actions=True, discounts=(0.99, 0.995, 0.999) if rng.random() < 0.04 else (0.5, 0.8, 0.9, 0.95))
+    cfg = dict(m=rng.randint(1, 5), tol=rng.choice((1e-3, 1e-5)), episodes=rng.randint(1, 6), seed=rng.choice((0, 1, 5, 99)),
+               reuse=rng.randrange(1000) if rng.random() < 0.15 else None)
     plain = idx % 4 == 0
     sched = gen_sched(rng, ('P',) if plain else ('P', 'U', 'R', 'R', 'X'))
     if plain:
@@ -40,7 +42,7 @@ def execute(case, script=None):
     ctx = RunCtx(PROP, view)
     ctx.W = game_W(view)
     ctx.declare_probes('pair_at_exactly_m', 'pair_at_m_minus_1_at_end', 'pair_sampled_beyond_m', 'unknown_pair_at_end',
-                       'episode_from_absorbing_start')
+                       'episode_from_absorbing_start', 'learner_reused', 'discount_close_to_one')
     sched = make_scheduler(case, script, ctx)
     try:
         return _execute(rm, view, case['cfg'], ctx, sched)
@@ -51,6 +53,8 @@ def execute(case, script=None):
 def _execute(rm, view, cfg, ctx, sched):
     mdp = make_mdp(view, ctx)
     g = view.gamma
+    if g >= 0.99:
+        ctx.probe('discount_close_to_one')
     m, tol = cfg['m'], cfg['tol']
     sk, ak, sid, aid = view.sk, view.ak, view.sid, view.aid
     reach0 = set(view.init)
@@ -72,7 +76,7 @@ def _execute(rm, view, cfg, ctx, sched):
     opt = rmax / (1 - g)
     nA = view.spec['nA']
     cnt, total, Rsum, Tc = {}, {}, {}, {}
-    state = dict(prev=None, ep=0, t=0)
+    state = dict(prev=None, ep=0, t=0, main=True)
 
     def oracle(Qr, where, policy=None):
         reach = set()
@@ -117,6 +121,8 @@ def _execute(rm, view, cfg, ctx, sched):
             pass
 
         def end_of_timestep(self, lv):
+            if not state['main']:
+                return
             ctx.steps += 1
             t = state['t']
             state['t'] += 1
@@ -145,6 +151,8 @@ def _execute(rm, view, cfg, ctx, sched):
                 ctx.probe('pair_sampled_beyond_m')
 
         def end_of_episode(self, lv):
+            if not state['main']:
+                return
             if state['prev'] is None:
                 ctx.probe('episode_from_absorbing_start')
             else:
@@ -169,8 +177,23 @@ def _execute(rm, view, cfg, ctx, sched):
     proxy = RandomProxy(sched)
     with patched_random([rm], proxy):
         try:
-            res = rm.RMAX(episodes=cfg['episodes'], rmax=rmax, num_transition_samples=m, bellman_convergence_diff=tol,
-                          seed=cfg['seed'], event_listener_class=L).train_on(mdp)
+            learner = rm.RMAX(episodes=cfg['episodes'], rmax=rmax, num_transition_samples=m, bellman_convergence_diff=tol,
+                              seed=cfg['seed'], event_listener_class=L)
+            sib = sibling_mdp_spec(view.spec, cfg['reuse']) if cfg.get('reuse') is not None else None
+            if sib is not None:
+                # fault F5: the same learner object is first trained on a sibling problem (same keys, one more absorbing state)
+                sview = MDPView(sib)
+                smdp_ = make_mdp(sview, ctx)
+                import numpy as _np
+                if float(_np.max(smdp_.reward_matrix)) == rmax:      # the learner asserts rmax == max reward of the model it is given
+                    sched.fire('F5_object_reuse')
+                    ctx.probe('learner_reused')
+                    state['main'] = False
+                    W0, ctx.W = ctx.W, game_W(sview)
+                    learner.train_on(smdp_)
+                    ctx.W = W0
+                    state['main'] = True
+            res = learner.train_on(mdp)
         except (Violation, Inconclusive):
             raise
         except Exception as e:
